@@ -1,9 +1,18 @@
-import TbotVerif.Spec.UBoot
-import TbotVerif.Props.C19Q
-/-! C19 — U-Boot exec / exec0 / test / env over the console model. -/
+import TbotVerif.Props.UBootExec
+/-! C19 — U-Boot `exec` / `exec0` / `test` / `env` over the console model: every call returns the
+    status the console reported and the text of exactly what the command printed — for EVERY
+    fragmentation schedule, chunk size and slice count — including the `crc32` / `"=> "` prompt
+    override; `env(v, x); env(v)` returns `x`; table facts about the regenerated write black-list.
+
+    Hypotheses of the theorems (`UBoot.wellformed`, decidable): every argument / name / value is
+    printable (ASCII 0x20–0x7E and everything ≥ 0x80 — the quantifier of C19; the quoting theorem
+    `C19Q.hushWords_escape` has the same domain), names are legal, and every stream a
+    `read_until_prompt` has to get through ends with the prompt in force and has no shorter prefix
+    that does (NO-EARLY-PROMPT, at the level of the stream so that it covers every cutting).
+    Without it tbot cannot tell output from prompt: `early_prompt_confuses` is the witness. -/
 
 namespace C19
-open UBoot Chan
+open UBoot Chan UBootChan UBootCon UBootSend UBootText UBootExec
 
 /-! ### table facts (regenerated black-list) -/
 
@@ -22,5 +31,239 @@ theorem quoting_bytes_sendable :
 
 /-- the prompt `exec` waits for in the crc32 special case is a newline and the `=> ` prompt -/
 theorem crc_override_eq : Params.ubootCrcOverride = UBoot.LF :: UBoot.crcPrompt := by decide
+
+/-- printable bytes can be sent and are echoed as they are -/
+theorem printable_sendable (c : Byte) (h : Hush.printable c = true) :
+    Params.ubootBlacklist.contains c = false ∧ UBoot.special.contains c = false := by
+  constructor
+  · cases hc : Params.ubootBlacklist.contains c with
+    | false => rfl
+    | true =>
+      have := List.all_eq_true.mp blacklist_control_only c (by simpa using hc)
+      simp [h] at this
+  · cases hc : UBoot.special.contains c with
+    | false => rfl
+    | true =>
+      have := List.all_eq_true.mp UBootCon.special_control c (by simpa using hc)
+      simp [h] at this
+
+/-! ### one command -/
+
+theorem enter_inv (P : Bytes) (op : UOp) (ss : Sess) (h : Inv P ss) : Inv P (enter op ss) :=
+  { quiet := ⟨h.quiet.deaths, h.quiet.accept, h.quiet.slow, h.quiet.chunk, h.quiet.slice, h.quiet.wf⟩
+    script := h.script, prompt := h.prompt, bl := h.bl, line := h.line, cprompt := h.cprompt }
+
+/-- **T (exec).**  On a session with nothing pending whose console maps `args` to `(out, status)`:
+    `exec(*args)` returns `(status, text(out as sent over the serial line))`, the console has
+    dispatched exactly `args` and then `echo $?` — for every fragmentation schedule `ss.cuts`,
+    every chunk size, every number of 512-byte slices. -/
+theorem exec_exact (P : Bytes) (hP : P ≠ []) (args : List Bytes) (o : Bytes) (status : Nat)
+    (ss : Sess) (hinv : Inv P ss) (ht : ss.con.table = some ⟨args, o, status⟩)
+    (hne : args ≠ []) (hp : ∀ a ∈ args, a.all Hush.printable = true)
+    (hgood : (cmdWins P args o status).all Win.good = true) :
+    ∃ ss', exec args ss = (.ok (status, text (Tty.cook o)), ss') ∧ Inv P ss'
+      ∧ ss'.con.ran = ss.con.ran ++ [Ran.argv args, Ran.status] ∧ ss'.con.env = ss.con.env
+      ∧ ss'.con.table = ss.con.table := by
+  have hd := dispatch_hit args o status ss.con ht
+  obtain ⟨ss', hex, hinv', hcon'⟩ := exec_general P hP args ss hinv hne hp (by rw [hd]; exact hgood)
+  rw [hd] at hex hcon'
+  refine ⟨ss', hex, hinv', ?_, ?_, ?_⟩
+  · rw [hcon']; simp
+  · rw [hcon']
+  · rw [hcon']
+
+/-- **T (crc32 / `"=> "` override).**  The special case of `exec_exact` the statement singles
+    out: with the `=> ` prompt and `crc32` as the command, tbot waits for `"\n=> "` instead of the
+    prompt — and still returns `(status, text(output))`: the newline the override swallowed is
+    restored (and the CR in front of it dropped). -/
+theorem exec_crc_exact (rest : List Bytes) (o : Bytes) (status : Nat) (ss : Sess) (hinv : Inv crcPrompt ss)
+    (ht : ss.con.table = some ⟨crcName :: rest, o, status⟩)
+    (hp : ∀ a ∈ rest, a.all Hush.printable = true)
+    (hgood : (winsOf crcPrompt Params.ubootCrcOverride (Hush.escape (crcName :: rest)) o status).all Win.good = true) :
+    isCrc (crcName :: rest) ss.st = true ∧
+    ∃ ss', exec (crcName :: rest) ss = (.ok (status, text (Tty.cook o)), ss') ∧ Inv crcPrompt ss' := by
+  constructor
+  · rw [isCrc_eq crcPrompt _ _ hinv.prompt]; simp
+  · obtain ⟨ss', h1, h2, _⟩ := exec_exact crcPrompt (by decide) (crcName :: rest) o status ss hinv ht (by simp)
+      (by
+        intro a ha
+        rcases List.mem_cons.mp ha with rfl | ha
+        · decide
+        · exact hp a ha)
+      (by
+        have : effPrompt crcPrompt (crcName :: rest) = Params.ubootCrcOverride := by simp [effPrompt]
+        unfold cmdWins
+        rw [this]; exact hgood)
+    exact ⟨ss', h1, h2⟩
+
+/-- **T (exec0).**  `exec0` returns the same text and raises `CommandFailure` iff the status is
+    not zero. -/
+theorem exec0_raises_iff (P : Bytes) (hP : P ≠ []) (args : List Bytes) (o : Bytes) (status : Nat)
+    (ss : Sess) (hinv : Inv P ss) (ht : ss.con.table = some ⟨args, o, status⟩)
+    (hne : args ≠ []) (hp : ∀ a ∈ args, a.all Hush.printable = true)
+    (hgood : (cmdWins P args o status).all Win.good = true) :
+    ((exec0 args ss).1 = .ok (text (Tty.cook o)) ↔ status = 0)
+      ∧ ((exec0 args ss).1 = .error .commandFailure ↔ status ≠ 0) := by
+  obtain ⟨ss', hex, _⟩ := exec_exact P hP args o status ss hinv ht hne hp hgood
+  unfold exec0
+  rw [hex]
+  simp only
+  by_cases h0 : status = 0
+  · simp [h0]
+  · simp [h0]
+
+/-- **T (test).**  `test` is `status == 0`. -/
+theorem test_iff (P : Bytes) (hP : P ≠ []) (args : List Bytes) (o : Bytes) (status : Nat)
+    (ss : Sess) (hinv : Inv P ss) (ht : ss.con.table = some ⟨args, o, status⟩)
+    (hne : args ≠ []) (hp : ∀ a ∈ args, a.all Hush.printable = true)
+    (hgood : (cmdWins P args o status).all Win.good = true) :
+    (test args ss).1 = .ok (status == 0) := by
+  obtain ⟨ss', hex, _⟩ := exec_exact P hP args o status ss hinv ht hne hp hgood
+  unfold test
+  rw [hex]
+
+/-- **T (every fragmentation).**  Two sessions that differ in nothing but the fragmentation
+    schedule of the console's output and the channel's chunk size return the same. -/
+theorem exec_fragmentation (P : Bytes) (hP : P ≠ []) (args : List Bytes) (o : Bytes) (status : Nat)
+    (ss : Sess) (hinv : Inv P ss) (ht : ss.con.table = some ⟨args, o, status⟩)
+    (hne : args ≠ []) (hp : ∀ a ∈ args, a.all Hush.printable = true)
+    (hgood : (cmdWins P args o status).all Win.good = true) (cuts : List Nat) (chunk : Nat) (hc : 0 < chunk) :
+    (exec args { ss with cuts := cuts, st := { ss.st with chunk := chunk } }).1 = (exec args ss).1 := by
+  obtain ⟨_, h1, _⟩ := exec_exact P hP args o status ss hinv ht hne hp hgood
+  have hinv' : Inv P { ss with cuts := cuts, st := { ss.st with chunk := chunk } } :=
+    { quiet := ⟨hinv.quiet.deaths, hinv.quiet.accept, hinv.quiet.slow, hc, hinv.quiet.slice, hinv.quiet.wf⟩
+      script := hinv.script, prompt := hinv.prompt, bl := hinv.bl, line := hinv.line, cprompt := hinv.cprompt }
+  obtain ⟨_, h2, _⟩ := exec_exact P hP args o status _ hinv' ht hne hp hgood
+  rw [h1, h2]
+
+/-! ### the environment -/
+
+theorem setenvB_printable : setenvB.all Hush.printable = true := by decide
+theorem printenvB_printable : printenvB.all Hush.printable = true := by decide
+
+theorem effPrompt_setenv (P var x : Bytes) : effPrompt P (setenvArgs var x) = P := by
+  have : ((setenvArgs var x).head? == some crcName) = false := by
+    show (some setenvB == some crcName) = false
+    decide
+  simp [effPrompt, this]
+
+theorem effPrompt_printenv (P var : Bytes) : effPrompt P (printenvArgs var) = P := by
+  have : ((printenvArgs var).head? == some crcName) = false := by
+    show (some printenvB == some crcName) = false
+    decide
+  simp [effPrompt, this]
+
+theorem printable_noCrLf (b : Bytes) (h : printableB b = true) : ∀ c ∈ b, c ≠ 13 ∧ c ≠ 10 := by
+  intro c hc
+  have := List.all_eq_true.mp h c hc
+  constructor <;> intro he <;> subst he <;> exact absurd this (by decide)
+
+/-- `exec0("printenv", var)` on a console without a table row, variable defined -/
+theorem printenv_defined (P : Bytes) (hP : P ≠ []) (var x : Bytes) (ss : Sess) (hinv : Inv P ss)
+    (ht : ss.con.table = none) (hv : printableB var = true) (hx : envGet ss.con.env var = some x)
+    (hgood : (winsOf P P (Hush.escape (printenvArgs var)) (printLine var x) 0).all Win.good = true) :
+    ∃ ss', exec0 (printenvArgs var) ss = (.ok (text (Tty.cook (printLine var x))), ss') ∧ Inv P ss'
+      ∧ ss'.con.ran = ss.con.ran ++ [Ran.argv (printenvArgs var), Ran.status] ∧ ss'.con.env = ss.con.env
+      ∧ ss'.con.table = none := by
+  have hd : dispatch (printenvArgs var) ss.con
+      = (printLine var x, { ss.con with ran := ss.con.ran ++ [Ran.argv (printenvArgs var)], status := 0 }) := by
+    have := dispatch_printenv var ss.con ht
+    rw [hx] at this
+    exact this
+  obtain ⟨ss', hex, hinv', hcon'⟩ := exec_general P hP (printenvArgs var) ss hinv (by simp [printenvArgs])
+    (by
+      intro a ha
+      simp only [printenvArgs, List.mem_cons, List.not_mem_nil, or_false] at ha
+      rcases ha with rfl | rfl
+      · exact printenvB_printable
+      · exact hv)
+    (by rw [hd]; unfold cmdWins; rw [effPrompt_printenv]; exact hgood)
+  rw [hd] at hex hcon'
+  refine ⟨ss', ?_, hinv', ?_, ?_, ?_⟩
+  · unfold exec0; rw [hex]; simp
+  · rw [hcon']; simp
+  · rw [hcon']
+  · rw [hcon']; exact ht
+
+/-- `exec0("printenv", var)`, variable not defined: `CommandFailure` -/
+theorem printenv_undefined (P : Bytes) (hP : P ≠ []) (var : Bytes) (ss : Sess) (hinv : Inv P ss)
+    (ht : ss.con.table = none) (hv : printableB var = true) (hx : envGet ss.con.env var = none)
+    (hgood : (winsOf P P (Hush.escape (printenvArgs var)) (notDefinedMsg var) 1).all Win.good = true) :
+    ∃ ss', exec0 (printenvArgs var) ss = (.error .commandFailure, ss') ∧ Inv P ss'
+      ∧ ss'.con.ran = ss.con.ran ++ [Ran.argv (printenvArgs var), Ran.status] ∧ ss'.con.env = ss.con.env := by
+  have hd : dispatch (printenvArgs var) ss.con
+      = (notDefinedMsg var, { ss.con with ran := ss.con.ran ++ [Ran.argv (printenvArgs var)], status := 1 }) := by
+    have := dispatch_printenv var ss.con ht
+    rw [hx] at this
+    exact this
+  obtain ⟨ss', hex, hinv', hcon'⟩ := exec_general P hP (printenvArgs var) ss hinv (by simp [printenvArgs])
+    (by
+      intro a ha
+      simp only [printenvArgs, List.mem_cons, List.not_mem_nil, or_false] at ha
+      rcases ha with rfl | rfl
+      · exact printenvB_printable
+      · exact hv)
+    (by rw [hd]; unfold cmdWins; rw [effPrompt_printenv]; exact hgood)
+  rw [hd] at hex hcon'
+  refine ⟨ss', ?_, hinv', ?_, ?_⟩
+  · unfold exec0; rw [hex]; simp
+  · rw [hcon']; simp
+  · rw [hcon']
+
+/-- `exec0("setenv", var, x)` on a console without a table row -/
+theorem setenv_ok (P : Bytes) (hP : P ≠ []) (var x : Bytes) (ss : Sess) (hinv : Inv P ss)
+    (ht : ss.con.table = none) (hv : printableB var = true) (hn : nameOk var = true) (hxp : printableB x = true)
+    (hgood : (winsOf P P (Hush.escape (setenvArgs var x)) [] 0).all Win.good = true) :
+    ∃ ss', exec0 (setenvArgs var x) ss = (.ok (text (Tty.cook [])), ss') ∧ Inv P ss'
+      ∧ ss'.con.ran = ss.con.ran ++ [Ran.argv (setenvArgs var x), Ran.status]
+      ∧ ss'.con.env = envSet ss.con.env var x ∧ ss'.con.table = none := by
+  have hd : dispatch (setenvArgs var x) ss.con
+      = ([], { ss.con with ran := ss.con.ran ++ [Ran.argv (setenvArgs var x)], status := 0,
+                           env := envSet ss.con.env var x }) := dispatch_setenv var x ss.con ht hn
+  obtain ⟨ss', hex, hinv', hcon'⟩ := exec_general P hP (setenvArgs var x) ss hinv (by simp [setenvArgs])
+    (by
+      intro a ha
+      simp only [setenvArgs, List.mem_cons, List.not_mem_nil, or_false] at ha
+      rcases ha with rfl | rfl | rfl
+      · exact setenvB_printable
+      · exact hv
+      · exact hxp)
+    (by rw [hd]; unfold cmdWins; rw [effPrompt_setenv]; exact hgood)
+  rw [hd] at hex hcon'
+  refine ⟨ss', ?_, hinv', ?_, ?_, ?_⟩
+  · unfold exec0; rw [hex]; simp
+  · rw [hcon']; simp
+  · rw [hcon']
+  · rw [hcon']; exact ht
+
+/-- **T (env).**  `env(var, x)` sets the variable and returns `x`; `env(var)` afterwards returns
+    `x` again — for printable (hence single-line) `x`, legal `var`, every fragmentation. -/
+theorem env_roundtrip (P : Bytes) (hP : P ≠ []) (var x : Bytes) (ss : Sess) (hinv : Inv P ss)
+    (ht : ss.con.table = none) (hv : printableB var = true) (hn : nameOk var = true) (hxp : printableB x = true)
+    (hgood : (envSetWins P var x).all Win.good = true) :
+    ∃ ss', UBoot.env var (some x) ss = (.ok (decodeReplace x), ss') ∧ Inv P ss'
+      ∧ ss'.con.ran = ss.con.ran ++ [Ran.argv (setenvArgs var x), Ran.status, Ran.argv (printenvArgs var), Ran.status]
+      ∧ ss'.con.env = envSet ss.con.env var x ∧ ss'.con.table = none
+      ∧ ∃ ss'', UBoot.env var none ss' = (.ok (decodeReplace x), ss'') ∧ Inv P ss''
+          ∧ ss''.con.env = ss'.con.env := by
+  unfold envSetWins at hgood
+  rw [List.all_append, Bool.and_eq_true] at hgood
+  obtain ⟨hg1, hg2⟩ := hgood
+  obtain ⟨ss1, h1, hinv1, hran1, henv1, ht1⟩ := setenv_ok P hP var x ss hinv ht hv hn hxp hg1
+  have hget1 : envGet ss1.con.env var = some x := by rw [henv1]; exact envGet_envSet _ _ _
+  obtain ⟨ss2, h2, hinv2, hran2, henv2, ht2⟩ := printenv_defined P hP var x ss1 hinv1 ht1 hv hget1 hg2
+  have hslice := sliceValue_printLine var x (printable_noCrLf var hv) (printable_noCrLf x hxp)
+  refine ⟨ss2, ?_, hinv2, ?_, by rw [henv2, henv1], ht2, ?_⟩
+  · have h1' : exec0 [setenvB, var, x] ss = (.ok (text (Tty.cook [])), ss1) := h1
+    have h2' : exec0 [printenvB, var] ss1 = (.ok (text (Tty.cook (printLine var x))), ss2) := h2
+    unfold UBoot.env
+    simp only [h1', h2', hslice]
+  · rw [hran2, hran1]; simp
+  · have hget2 : envGet ss2.con.env var = some x := by rw [henv2]; exact hget1
+    obtain ⟨ss3, h3, hinv3, _, henv3, _⟩ := printenv_defined P hP var x ss2 hinv2 ht2 hv hget2 hg2
+    refine ⟨ss3, ?_, hinv3, henv3⟩
+    have h3' : exec0 [printenvB, var] ss2 = (.ok (text (Tty.cook (printLine var x))), ss3) := h3
+    unfold UBoot.env
+    simp only [h3', hslice]
 
 end C19
